@@ -19,5 +19,8 @@ func TestVerif_C08(t *testing.T) {
 	}
 	// results of ReadBytes / Peek that came through the socket fallback (non-shm slices) of REAL session pairs
 	// must not change either while later events arrive on the connection (see c06_session_test.go)
-	vsRun(out, newVrand(uint64(venvInt("VERIF_SEED", 1))+0x0C58), venvInt("VERIF_N2", n/10), n, "c08s")
+	n2 := venvInt("VERIF_N2", n/10)
+	vsRun(out, newVrand(uint64(venvInt("VERIF_SEED", 1))+0x0C58), n2, n, "c08s")
+	// callback mode: results kept past OnData while the peer closes (c08_callback_test.go)
+	vcRun(out, newVrand(uint64(venvInt("VERIF_SEED", 1))+0x0CB), venvInt("VERIF_N3", n2), n+n2)
 }
